@@ -617,13 +617,17 @@ def run_ep(ep, nv, rows, enc):
             if isinstance(r, ProofTerm):
                 return ('unsat', r, None)
             if isinstance(r, dict):
-                # the macros rename the variables to x_0, x_1, .. in order of first occurrence
+                # the macros rename the variables to fresh x_<k> with k increasing in order of first occurrence
                 order = []
                 for a, _, _ in rows:
                     for i, c in enumerate(a):
-                        if c != 0 and i not in order:
+                        if (c != 0) and i not in order:
                             order.append(i)
-                return ('sat', {i: r.get('x_%d' % j, 0) for j, i in enumerate(order)}, None)
+                fresh = sorted((k for k in r if isinstance(k, str) and k.startswith('x_') and k[2:].isdigit()),
+                               key=lambda k: int(k[2:]))
+                if len(fresh) != len(order):
+                    return ('sat-unreadable',)
+                return ('sat', {i: r[k] for k, i in zip(fresh, order)}, None)
             return ('bad', repr(r))
         if ep == 'int_macro':
             _, terms = build_terms(nv, rows, enc, IntType, ep)
